@@ -73,6 +73,52 @@ def handle (op : String) (args : List String) : Option String := do
       let b ← bbOf (fs.take 6); let p ← v3Of (fs.drop 6); pure (boolStr (b.Contains p))
   | "c17.aabb.intersects" => do
       let b ← bbOf (fs.take 6); let c ← bbOf (fs.drop 6); pure (boolStr (b.Intersects c))
+  | "c17.aabb.expand" => do            -- box amount
+      let a ← bbOf (fs.take 6); pure (fsHex (bbTo (a.Expand (fs.getD 6 0))))
+  | "c17.aabb.volume" => do let a ← bbOf (fs.take 6); pure (fHex a.Volume)
+  | "c17.mat.fromdirs" => do           -- up forward offset
+      let u ← v3Of (fs.take 3); let f ← v3Of ((fs.drop 3).take 3); let o ← v3Of (fs.drop 6)
+      pure (fsHex (mTo (mat.MatFromDirs u f o)))
+  | "c17.trs.ctor" => do               -- kind(0 position,1 scale,2 rotation,3 translate of New p r s by d) params… v
+      let kind := fs.getD 0 0
+      if kind == 0 then
+        let p ← v3Of ((fs.drop 1).take 3); let v ← v3Of (fs.drop 4)
+        pure (fsHex (v3To ((trs.Position p).Transform v)))
+      else if kind == 1 then
+        let p ← v3Of ((fs.drop 1).take 3); let v ← v3Of (fs.drop 4)
+        pure (fsHex (v3To ((trs.Scale p).Transform v)))
+      else if kind == 2 then
+        let q ← qOf ((fs.drop 1).take 4); let v ← v3Of (fs.drop 5)
+        pure (fsHex (v3To ((trs.Rotation q).Transform v)))
+      else
+        let p ← v3Of ((fs.drop 1).take 3); let r ← qOf ((fs.drop 4).take 4); let sc ← v3Of ((fs.drop 8).take 3)
+        let d ← v3Of ((fs.drop 11).take 3); let v ← v3Of (fs.drop 14)
+        pure (fsHex (v3To (((trs.New p r sc).Translate d).Transform v)))
+  -- oracles for Props/C17More.lean ------------------------------------------------------
+  | "c17.holds.rodrigues" => do        -- θ axis(non-zero) v out(=FromTheta(θ,axis).Rotate(v)) : Rodrigues' formula about axis/|axis|
+      let θ := fs.getD 0 0
+      let k ← v3Of ((fs.drop 1).take 3); let v ← v3Of ((fs.drop 4).take 3); let out ← v3Of (fs.drop 7)
+      let n := k.Normalized
+      let want := ((v.Scale (Float.cos θ)).Add ((n.Cross v).Scale (Float.sin θ))).Add (n.Scale (n.Dot v * (1 - Float.cos θ)))
+      let tol := 1e-9 * (1 + v.Length)
+      pure (boolStr ((want.x - out.x).abs ≤ tol && (want.y - out.y).abs ≤ tol && (want.z - out.z).abs ≤ tol))
+  | "c17.holds.closest_nearest" => do  -- box v closest(=ClosestPoint v) q(a point the implementation says the box contains)
+      let v ← v3Of ((fs.drop 6).take 3); let cp ← v3Of ((fs.drop 9).take 3); let q ← v3Of (fs.drop 12)
+      pure (boolStr (v.Distance cp ≤ v.Distance q * (1 + 1e-12) + 1e-300))
+  | "c17.holds.intersects" => do       -- a b result(1/0) : boxes with non-negative extents share a point iff Intersects
+      let a ← bbOf (fs.take 6); let b ← bbOf ((fs.drop 6).take 6); let r := fs.getD 12 0
+      let w : V3 Float := ⟨max a.Min.x b.Min.x, max a.Min.y b.Min.y, max a.Min.z b.Min.z⟩
+      let shared := a.Contains w && b.Contains w
+      pure (boolStr ((r == 1) == shared))
+  | "c17.holds.fromdirs_frame" => do   -- up(unit) forward offset M(=MatFromDirs) : columns orthonormal, right handed, offset kept
+      let m ← mOf (fs.drop 9)
+      let l : V3 Float := ⟨m.X00, m.X10, m.X20⟩; let u : V3 Float := ⟨m.X01, m.X11, m.X21⟩; let f : V3 Float := ⟨m.X02, m.X12, m.X22⟩
+      let o ← v3Of ((fs.drop 6).take 3)
+      let z := fun (x : Float) => x.abs ≤ 1e-9
+      let c := l.Cross u
+      pure (boolStr (z (l.Dot l - 1) && z (f.Dot f - 1) && z (l.Dot u) && z (f.Dot u) && z (f.Dot l)
+        && z (c.x - f.x) && z (c.y - f.y) && z (c.z - f.z)
+        && m.X03 == o.x && m.X13 == o.y && m.X23 == o.z && m.X30 == 0 && m.X31 == 0 && m.X32 == 0 && m.X33 == 1))
   | "c17.line.closest" => do
       let a ← v3Of (fs.take 3); let b ← v3Of ((fs.drop 3).take 3); let p ← v3Of (fs.drop 6)
       pure (fsHex (v3To ((geometry.NewLine3D a b).ClosestPointOnLine p)))
